@@ -19,8 +19,8 @@ type RawKey struct {
 	Probe bool
 }
 
-func intVal(i int) int  { return i }
-func intID(v int) int   { return v }
+func intVal(i int) int { return i }
+func intID(v int) int  { return v }
 func cloneB(b []byte) []byte {
 	c := make([]byte, len(b))
 	copy(c, b)
@@ -39,11 +39,11 @@ func newAlphaString(raw []RawKey) TreeDriver {
 	cs, _ = buildUniverse(cs, strings.Compare)
 	d := &Driver[string, int]{
 		name: "alpha/string", family: "alpha",
-		ident:     func(k string) string { return "b:" + k },
-		newTree:   func() art.Tree[string, int] { return art.NewAlphaSortedTree[string, int]() },
-		mkVal:     intVal, valID: intID,
+		ident:   func(k string) string { return "b:" + k },
+		newTree: func() art.Tree[string, int] { return art.NewAlphaSortedTree[string, int]() },
+		mkVal:   intVal, valID: intID,
 		hasPrefix: true, hasRange: true,
-		emptyKey:  func() (string, bool) { return "", true },
+		emptyKey: func() (string, bool) { return "", true },
 	}
 	for _, c := range cs {
 		d.keys = append(d.keys, c.k)
@@ -61,12 +61,12 @@ func newAlphaBytes(raw []RawKey) TreeDriver {
 	cs, _ = buildUniverse(cs, bytes.Compare)
 	d := &Driver[[]byte, int]{
 		name: "alpha/bytes", family: "alpha",
-		ident:     func(k []byte) string { return "b:" + string(k) },
-		newTree:   func() art.Tree[[]byte, int] { return art.NewAlphaSortedTree[[]byte, int]() },
-		mkVal:     intVal, valID: intID,
+		ident:   func(k []byte) string { return "b:" + string(k) },
+		newTree: func() art.Tree[[]byte, int] { return art.NewAlphaSortedTree[[]byte, int]() },
+		mkVal:   intVal, valID: intID,
 		hasPrefix: true, hasRange: true,
-		emptyKey:  func() ([]byte, bool) { return []byte{}, true },
-		passKey:   cloneB,
+		emptyKey: func() ([]byte, bool) { return []byte{}, true },
+		passKey:  cloneB,
 	}
 	for _, c := range cs {
 		d.keys = append(d.keys, c.k)
@@ -124,9 +124,9 @@ func newUnsigned[K interface {
 	codec := art.UnsignedBinaryKey[K]{}
 	d := &Driver[K, int]{
 		name: name, family: "unsigned",
-		ident:    func(k K) string { return fmt.Sprintf("u:%d", uint64(k)) },
-		newTree:  func() art.Tree[K, int] { return art.NewUnsignedBinaryTree[K, int]() },
-		mkVal:    intVal, valID: intID,
+		ident:   func(k K) string { return fmt.Sprintf("u:%d", uint64(k)) },
+		newTree: func() art.Tree[K, int] { return art.NewUnsignedBinaryTree[K, int]() },
+		mkVal:   intVal, valID: intID,
 		hasRange: true, leafByT: true,
 	}
 	for _, c := range cs {
@@ -152,9 +152,9 @@ func newSigned[K interface {
 	codec := art.SignedBinaryKey[K]{}
 	d := &Driver[K, int]{
 		name: name, family: "signed",
-		ident:    func(k K) string { return fmt.Sprintf("i:%d", int64(k)) },
-		newTree:  func() art.Tree[K, int] { return art.NewSignedBinaryTree[K, int]() },
-		mkVal:    intVal, valID: intID,
+		ident:   func(k K) string { return fmt.Sprintf("i:%d", int64(k)) },
+		newTree: func() art.Tree[K, int] { return art.NewSignedBinaryTree[K, int]() },
+		mkVal:   intVal, valID: intID,
 		hasRange: true, leafByT: true,
 	}
 	for _, c := range cs {
@@ -219,11 +219,11 @@ func newFloat64(raw []RawKey) TreeDriver {
 	codec := art.FloatBinaryKey[float64]{}
 	d := &Driver[float64, int]{
 		name: "float64", family: "float",
-		ident:    floatIdent64,
-		newTree:  func() art.Tree[float64, int] { return art.NewFloatBinaryTree[float64, int]() },
-		mkVal:    intVal, valID: intID,
+		ident:   floatIdent64,
+		newTree: func() art.Tree[float64, int] { return art.NewFloatBinaryTree[float64, int]() },
+		mkVal:   intVal, valID: intID,
 		hasRange: true, leafByT: true,
-		rangeOK:  floatRangeOK,
+		rangeOK: floatRangeOK,
 	}
 	for _, c := range cs {
 		_, t := codec.Transform(c.k)
@@ -249,10 +249,10 @@ func newFloat32(raw []RawKey) TreeDriver {
 			}
 			return fmt.Sprintf("f:%08x", math.Float32bits(f))
 		},
-		newTree:  func() art.Tree[float32, int] { return art.NewFloatBinaryTree[float32, int]() },
-		mkVal:    intVal, valID: intID,
+		newTree: func() art.Tree[float32, int] { return art.NewFloatBinaryTree[float32, int]() },
+		mkVal:   intVal, valID: intID,
 		hasRange: true, leafByT: true,
-		rangeOK:  func(a, b float32) bool { return floatRangeOK(float64(a), float64(b)) },
+		rangeOK: func(a, b float32) bool { return floatRangeOK(float64(a), float64(b)) },
 	}
 	for _, c := range cs {
 		_, t := codec.Transform(c.k)
@@ -626,9 +626,9 @@ func newCompound(s Schema, raw []RawKey) TreeDriver {
 	_ = hasFloat
 	d := &Driver[Tuple, int]{
 		name: "compound/" + s.String(), family: "compound",
-		ident:    tupleIdent(s),
-		newTree:  func() art.Tree[Tuple, int] { return art.NewCompoundTree[Tuple, int](codec) },
-		mkVal:    intVal, valID: intID,
+		ident:   tupleIdent(s),
+		newTree: func() art.Tree[Tuple, int] { return art.NewCompoundTree[Tuple, int](codec) },
+		mkVal:   intVal, valID: intID,
 		hasRange: true, leafByT: true,
 	}
 	for _, c := range cs {
